@@ -257,7 +257,7 @@ class Inj:
   def inj_loopback(s, at_parent):
     """child output port drives an input port of the same child: legal only when connected in the parent"""
     rng, d = s.rng, s.d
-    srcs = [e for e in s.b.writer_eps + s.readers() if isinstance(e, EP) and e.sig.kind == 'out' and e.sig.inst != ()]
+    srcs = [e for e in s.b.writer_eps + s.readers() + [e for h, st, e in s.blk_writes()] if isinstance(e, EP) and e.sig.kind == 'out' and e.sig.inst != ()]
     rng.shuffle(srcs)
     for u in srcs:
       C = d.insts[u.sig.inst]
@@ -440,13 +440,32 @@ Definition ctype := (design * nat)%type.
 '''
 IMPORTS = 'Base.Prelude Sched.Accept Elab.Nets Elab.Address Elab.Defects'
 
-KNOWN_PATTERNS = {
-  'same-blk:sibling-overlap(F6)': 'C09:same-block-overlapping-slices',
-  'same-net-overlap': 'C09:same-net-overlapping-slices',
-  'same-blk:parent+field,sibling-in-net': 'C09:same-block-parent-and-field-write',
-  'op:upd-aug': 'C09:augmented-assignment-raises-TypeError',
-  'op:ff-aug': 'C09:augmented-assignment-raises-TypeError',
-}
+def sameblk_parent_child(d):
+  for h, st in d.blocks():
+    ws = [e for e, op in st[4]]
+    for e1 in ws:
+      for e2 in ws:
+        if e1.sig is e2.sig and len(e1.chain) < len(e2.chain) and e2.chain[:len(e1.chain)] == e1.chain: return True
+  return False
+
+def sameblk_sibling_overlap(d):
+  for h, st in d.blocks():
+    ws = [e for e, op in st[4] if e.chain and e.chain[-1][0] == 'S']
+    for e1 in ws:
+      for e2 in ws:
+        if e1 is not e2 and e1.sig is e2.sig and e1.chain[:-1] == e2.chain[:-1] and e1.chain != e2.chain and e1.lo < e2.hi and e2.lo < e1.hi: return True
+  return False
+
+def aug_assign(d):
+  return any(op not in OPS for h, st in d.blocks() for e, op in st[4])
+
+def pattern_key(d, obs, model, unstable=False):
+  """stable keys of the deviations that are understood (one root cause each); None = not a recognised pattern"""
+  if aug_assign(d) and obs == 99: return 'C09:augmented-assignment-raises-TypeError'
+  if sameblk_sibling_overlap(d) and obs == 1 and model == 0: return 'C09:same-block-overlapping-slices'
+  if 'same-net-overlap' in d.features and obs == 0 and model == 1: return 'C09:same-net-overlapping-slices'
+  if sameblk_parent_child(d) and (unstable or (obs, model) in ((2, 0), (0, 1), (1, 0))): return 'C09:same-block-parent-and-child-write'
+  return None
 
 def run(ctx):
   setup_impl_path()
@@ -460,7 +479,9 @@ def run(ctx):
   applied = {}
   for j in range(ndes):
     inj = names[j % len(names)] if j < 2 * len(names) else rng.choice(names)
-    d, ok = gen_design(random.Random(rng.randrange(1 << 30)), f'E{j}', inj)
+    for attempt in range(4):
+      d, ok = gen_design(random.Random(rng.randrange(1 << 30)), f'E{j}', inj)
+      if ok: break
     if not ok:
       ctx.hist['not-applicable:' + inj] = ctx.hist.get('not-applicable:' + inj, 0) + 1
       inj = 'none*'
@@ -482,8 +503,7 @@ def run(ctx):
     stable = all(o[0] == c0 for o in outs)
     if not stable:
       v = next(i for i, o in enumerate(outs) if o[0] != c0)
-      key = KNOWN_PATTERNS.get(inj, f'C09:order-dependent:{ec.dhash(outs[0][1])}')
-      if key in KNOWN_PATTERNS.values(): key += ':order-dependent'
+      key = pattern_key(d, c0, outs[v][0], unstable=True) or f'C09:order-dependent:{ec.dhash(outs[0][1])}'
       ctx.violation(key, f'design {d.name} (injection "{inj}"): statement order 0 -> {FAMNAME[c0]} ({outs[0][2][1] if c0 else ""}) but order {v} of the same statements -> {FAMNAME[outs[v][0]]} ({outs[v][2][1] if outs[v][0] else ""})',
                     {'design_source_order0': outs[0][1], f'design_source_order{v}': outs[v][1], 'injection': inj,
                      'classes_per_order': [FAMNAME[o[0]] for o in outs]})
@@ -506,11 +526,11 @@ def run(ctx):
       if wf[n].strip() != 'true':
         ctx.violation(f'C09:harness-wf:{d.name}', f'address universe of {d.name} is not well-formed ({wf[n]})', {'design_source': src}, found_input=False); continue
       if which == 'bit':
-        key = KNOWN_PATTERNS.get(inj, f'C09:verdict:{ec.dhash(src)}')
+        key = pattern_key(d, obs, mv) or f'C09:verdict:{ec.dhash(src)}'
         what = (f'design {d.name} (injection "{inj}", order {v}): bit-level decision = {FAMNAME.get(mv, mv)} but top.elaborate() -> '
                 f'{FAMNAME[obs]}' + (f' [{r[1]}: {r[2][:160]}]' if obs else ''))
       else:
-        if inj in KNOWN_PATTERNS and (not stable or inj.startswith('op:')): continue
+        if sameblk_parent_child(d) or aug_assign(d): continue      # nondeterministic / crashing paths are not part of the faithful model
         key = f'C09:model-drift:{ec.dhash(src)}'
         what = (f'design {d.name} (injection "{inj}", order {v}): the faithful model of the elaboration checks says {FAMNAME.get(mv, mv)} but '
                 f'top.elaborate() -> {FAMNAME[obs]}' + (f' [{r[1]}: {r[2][:160]}]' if obs else ''))
